@@ -415,11 +415,40 @@ def coerce_hint_any(hint: Hint) -> Hint:
     if is_hint_cacheworthy(hint):
         # print(f'Self-caching type hint {repr(hint)}...')
 
+        # Machine-readable representation of this hint.
+        hint_repr = get_hint_repr(hint)
+
         #FIXME: [SPEED] Globalize the
         #_hint_repr_to_hint.cache_or_get_cached_value() bound method and call
         #that globalized bound method here instead as a negligible speedup.
-        hint = _hint_repr_to_hint.cache_or_get_cached_value(  # type: ignore[return-value]
-            key=get_hint_repr(hint), value=hint)
+        # Hint previously cached under this representation if any *OR* this
+        # hint otherwise (in which case this hint is now cached).
+        hint_cached = _hint_repr_to_hint.cache_or_get_cached_value(
+            key=hint_repr, value=hint)
+
+        # True only if the cached hint is a copy of this hint. Representations
+        # are ambiguous: two unequal hints can share the same representation
+        # (e.g., "list[MuhClass]" subscripted by two distinct classes both named
+        # "MuhClass", as occurs when a class is redefined *WITHOUT* being
+        # decorated by @beartype and thus without clearing this cache). Only an
+        # equal hint is a valid replacement for this hint.
+        try:
+            is_hint_cached_copy = hint_cached is hint or hint_cached == hint
+        # If comparing these hints raises an exception (e.g., due to a child
+        # object overriding the __eq__() dunder method), assume these hints to
+        # be unequal for safety.
+        except Exception:
+            is_hint_cached_copy = False
+
+        # If the cached hint is a copy of this hint, replace this copy by the
+        # first copy of this hint.
+        if is_hint_cached_copy:
+            hint = hint_cached  # type: ignore[assignment]
+        # Else, the cached hint is a different hint that merely shares the same
+        # representation as this hint. In this case, preserve this hint as is
+        # and replace that stale hint in this cache with this hint.
+        else:
+            _hint_repr_to_hint.cache_value(key=hint_repr, value=hint)
     # Else, this hint is (hopefully) self-caching.
 
     # ..................{ RETURN                             }..................
